@@ -88,43 +88,77 @@ def run(ctx, chk):
 
 
 def check_trim(chk, cfg, b):
+    """trim_u8, decided per outcome of the two searches (position / rposition are matched as Some / None whether the code says
+    unwrap_or / map_or or an explicit match):
+      start = position(v.iter(), acceptable) -> Some(p): p, None: len(v) (or 0)
+      end   = rposition(v[start..].iter(), acceptable) -> Some(q): start + q + 1, None: start
+      result = strict parse of v[start..end]"""
     what = "Seq::trim_u8"
-    paths, _ = an.analyse(cfg, b)
+    paths, _ = an.analyse(cfg, b, policy=an.ForkPolicy())
     r = [p for p in paths if p.end == "return"]
-    if len(r) != 1 or r[0].guards:
-        chk.cannot("R21", what, "not a single unconditional path", b["span"])
-        return
-    p = r[0]
-    pos = [x for x in p.calls if short(x[0]) == "position"]
-    rpos = [x for x in p.calls if short(x[0]) == "rposition"]
-    uo = [x for x in p.calls if short(x[0]) == "unwrap_or"]
-    mo = [x for x in p.calls if short(x[0]) == "map_or"]
-    if not (len(pos) == 1 and len(rpos) == 1 and len(uo) == 1 and len(mo) == 1):
-        chk.cannot("R21", what, "expected one position, one rposition, one unwrap_or, one map_or", b["span"])
+    bad = [p for p in paths if p.end not in ("return", "panic")]
+    if bad or not r:
+        chk.cannot("R21", what, "unrecognised outcome: " + (bad[0].describe()[:160] if bad else "no returning path"), b["span"])
         return
     vlen = ("call", "core::slice::<impl [u8]>::len", (P(1),), None)
     viter = re.compile(r"^core::slice::<impl \[u8\]>::iter$")
-    # start
-    ok1, d1 = pipes.is_accept_closure(cfg, pos[0][1][1])
-    src1 = pos[0][3].args and pos[0][1][0]
-    start = uo[0][2]
-    oks = uo[0][1][0] == pos[0][2] and (uo[0][1][1] == vlen or uo[0][1][1] == c(0))
-    # the position iterator runs over the whole input
-    it1 = [x for x in p.calls if viter.match(x[0]) and x[1] == (P(1),)]
-    chk.ob("R21/start", what, ok1 and oks and len(it1) >= 1,
-           "start must be v.iter().position(|b| try_from_ascii(b).is_some()).unwrap_or(v.len() | 0); predicate %s, default %s" % (d1, show(uo[0][1][1])), b["span"],
+    seen = set()
+    oks = oke = okp = True
+    why = []
+    for p in r:
+        pos = [x for x in p.calls if short(x[0]) == "position"]
+        rpos = [x for x in p.calls if short(x[0]) == "rposition"]
+        if len(pos) != 1 or len(rpos) != 1:
+            chk.cannot("R21", what, "a returning path does not perform exactly one position and one rposition search", b["span"])
+            return
+        T1, T2 = pos[0][2], rpos[0][2]
+        st = {}
+        for g in p.guards:
+            if g[0] == "sw" and isinstance(g[1], tuple) and g[1][0] == "discr" and g[1][1] in (T1, T2):
+                v = g[3] if g[2] == "==" else (1 - g[3][0] if g[2] == "notin" and g[3] in ((0,), (1,)) else None)
+                st[g[1][1]] = v
+            elif g[0] != "sw" or not (isinstance(g[1], tuple) and g[1][0] == "discr"):
+                oks = False
+                why.append("extra condition " + str(g)[:80])
+        if st.get(T1) not in (0, 1) or st.get(T2) not in (0, 1):
+            chk.cannot("R21", what, "a returning path is not keyed by the outcomes of both searches: " + p.describe()[:200], b["span"])
+            return
+        seen.add((st[T1], st[T2]))
+        ok1, d1 = pipes.is_accept_closure(cfg, pos[0][1][1])
+        ok2, d2 = pipes.is_accept_closure(cfg, rpos[0][1][1])
+        # the first search runs over the whole input
+        src1 = pos[0][1][0]
+        src1 = src1[2][2] if isinstance(src1, tuple) and src1[0] == "ref" else src1
+        it1 = [x for x in p.calls if viter.match(x[0]) and x[1] == (P(1),)]
+        start = F(("downcast", T1, 1, "Some"), "0") if st[T1] == 1 else None
+        x, d = pipes.strict_parse_of(cfg, p.ret)
+        if x is None or not an.is_call(x, re.compile(r"Index<std::ops::Range<usize>> for \[u8\]>::index$")) or x[2][0] != P(1):
+            okp = False
+            why.append("result is not the strict parse of a sub-range of the input: " + d[:120])
+            continue
+        rng = x[2][1]
+        if not (isinstance(rng, tuple) and rng[0] == "agg" and rng[1] == "std::ops::Range"):
+            okp = False
+            continue
+        gs, ge = rng[4]
+        if st[T1] == 1:
+            okstart = gs == start
+        else:
+            okstart = gs == vlen or gs == c(0)
+        if not (ok1 and okstart and len(it1) >= 1):
+            oks = False
+            why.append("start on %s: %s (predicate %s)" % ("Some" if st[T1] else "None", show(gs)[:60], d1))
+        tail = ("call", "core::slice::index::<impl std::ops::Index<std::ops::RangeFrom<usize>> for [u8]>::index", (P(1), ("agg", "std::ops::RangeFrom", 0, "RangeFrom", (gs,))), None)
+        it2 = [x for x in p.calls if viter.match(x[0]) and x[1] == (tail,)]
+        if st[T2] == 1:
+            okend = nf.canon(nf.Norm()(ge)) == nf.canon(add(add(gs, F(("downcast", T2, 1, "Some"), "0")), c(1)))
+        else:
+            okend = ge == gs
+        if not (ok2 and okend and len(it2) == 1):
+            oke = False
+            why.append("end on %s: %s (predicate %s)" % ("Some" if st[T2] else "None", show(ge)[:80], d2))
+    full = seen == {(1, 1), (1, 0), (0, 1), (0, 0)} or seen == {(1, 1), (1, 0), (0, 0)} or seen == {(1, 1), (1, 0), (0, 1), (0, 0)}
+    chk.ob("R21/start", what, oks and full, "start must be the first acceptable byte's position, or len (or 0) when there is none; %s; outcomes seen %s" % ("; ".join(why)[:300], sorted(seen)), b["span"],
            sample={"start": "position(acceptable) or len"})
-    # end
-    ok2, d2 = pipes.is_accept_closure(cfg, rpos[0][1][1])
-    tail = ("call", "core::slice::index::<impl std::ops::Index<std::ops::RangeFrom<usize>> for [u8]>::index", (P(1), ("agg", "std::ops::RangeFrom", 0, "RangeFrom", (start,))), None)
-    it2 = [x for x in p.calls if viter.match(x[0]) and x[1] == (tail,)]
-    cl = pipes.closure_ret(cfg, mo[0][1][2])
-    okm = mo[0][1][0] == rpos[0][2] and mo[0][1][1] == start and cl is not None and \
-        nf.canon(nf.Norm()(cl)) == nf.canon(add(add(start, ("ARG",)), c(1)))
-    chk.ob("R21/end", what, ok2 and okm and len(it2) == 1,
-           "end must be v[start..].iter().rposition(acceptable).map_or(start, |pos| start + pos + 1); predicate %s, closure %s" % (d2, show(cl) if cl else "?"), b["span"])
-    end = mo[0][2]
-    # parse v[start..end]
-    x, d = pipes.strict_parse_of(cfg, p.ret)
-    want = ("call", "core::slice::index::<impl std::ops::Index<std::ops::Range<usize>> for [u8]>::index", (P(1), ("agg", "std::ops::Range", 0, "Range", (start, end))), None)
-    chk.ob("R21/parse", what, x == want, "result must be the strict parse of v[start..end]; %s over %s" % (d, show(x)[:160] if x else "?"), b["span"])
+    chk.ob("R21/end", what, oke and full, "end must be start + (last acceptable position in v[start..]) + 1, or start when there is none; %s" % "; ".join(why)[:300], b["span"])
+    chk.ob("R21/parse", what, okp, "result must be the strict parse of v[start..end]; %s" % "; ".join(why)[:300], b["span"])
